@@ -78,8 +78,8 @@ class Scheduler:
             try:
                 if not self.aborted:
                     a.fn()
-            except ActorKilled:
-                pass
+            except (ActorKilled, SystemExit):
+                pass  # a thread that raises SystemExit just ends (threading swallows it)
             except BaseException as e:  # noqa
                 a.error = f"{type(e).__name__}: {e}\n{traceback.format_exc()[-1500:]}"
             finally:
